@@ -1016,6 +1016,50 @@ fn report_transpose(model: &mut Model, rep: &mut Report, reg_major: &[u8], d: Di
     });
 }
 
+fn long_vtx(rep: &mut Report, longs: &[usize]) {
+    // long recordings (more than 65536 frames, over 20 minutes at 50 Hz): the Lean model's list transposition is
+    // quadratic, so here the frame-major order is checked against the spec's index formula directly:
+    // frame f, register r  <-  byte r*frames + f of the register-major data
+    for &n in longs {
+        let reg_major: Vec<u8> = (0..n * 14).map(|k| ((k * 31 + k / 251 + k / 65536 * 7) & 0xFF) as u8).collect();
+        let file = vtx_file(true, 2, 50, &reg_major);
+        let loaded = catch_unwind(AssertUnwindSafe(|| vtx::Vtx::load(std::io::Cursor::new(file))));
+        rep.eval();
+        rep.class(format!("transpose long frames={}", n));
+        rep.count("transpose_frames", ">65535");
+        let bad: Option<String> = match loaded {
+            Err(_) => Some("Vtx::load panicked".into()),
+            Ok(Err(e)) => Some(format!("Vtx::load rejected the file: {}", e)),
+            Ok(Ok(v)) => {
+                if v.frame_data.len() != n * 14 {
+                    Some(format!("{} bytes of frame data instead of {}", v.frame_data.len(), n * 14))
+                } else {
+                    (0..n * 14).find(|idx| v.frame_data[*idx] != reg_major[(idx % 14) * n + idx / 14]).map(|idx| {
+                        format!(
+                            "frame {} register {} holds {:02x}, the register-major data says {:02x}",
+                            idx / 14,
+                            idx % 14,
+                            v.frame_data[idx],
+                            reg_major[(idx % 14) * n + idx / 14]
+                        )
+                    })
+                }
+            }
+        };
+        if let Some(what) = bad {
+            rep.violation(Violation {
+                kind: Kind::SpecViolated,
+                key: "C20/load.transpose.long".into(),
+                what: format!("Vtx::load of a well-formed file with {} frames: {}", n, what),
+                correspondence: "corr.C20.load (Vtx::load vs Spec.Vtx frame-major listing)".into(),
+                case: J::obj(vec![("text", J::s(format!("longvtx frames={}", n)))]),
+                implementation: what.clone(),
+                expected: "frame f, register r = byte r*frames + f of the register-major data; no byte lost or reordered".into(),
+            });
+        }
+    }
+}
+
 pub fn run(o: &Opts) -> Report {
     let mut rep = Report::new("C20");
     rep.rule = "random register logs (0-10 frames, R13 biased to 0xFF / 0xF0-0xFE, sometimes a trailing partial frame) x \
@@ -1030,6 +1074,12 @@ play call with spf>0, non-silent precise stream classes, transposition frame cou
     let mut model = Model::spawn(&o.model, "C20");
 
     if let Some(text) = &o.replay {
+        if let Some(rest) = text.trim().strip_prefix("longvtx frames=") {
+            if let Ok(n) = rest.trim().parse::<usize>() {
+                long_vtx(&mut rep, &[n]);
+            }
+            return rep;
+        }
         rep.sample(J::s(text.clone()));
         if let Some(rest) = text.strip_prefix("transpose data=") {
             let d = if rest.trim() == "-" { vec![] } else { unhex(rest) };
@@ -1123,6 +1173,7 @@ play call with spf>0, non-silent precise stream classes, transposition frame cou
             report_transpose(&mut model, &mut rep, &d, x);
         }
     }
+    long_vtx(&mut rep, &if o.thorough() { vec![65535, 65536, 65537, 70001, 100000] } else { vec![65537] });
     rep.extra.push(("logs".into(), J::I(logs as i64)));
     rep.extra.push(("model_requests".into(), J::I(model.requests as i64)));
     rep
